@@ -6,6 +6,7 @@ import (
 	"context"
 
 	"github.com/buildkite/go-pipeline"
+	"github.com/buildkite/go-pipeline/ordered"
 )
 
 // C01 - any semantic change to signed step content makes verification fail
@@ -17,6 +18,7 @@ func init() {
 	vpRegister("c01_fields", vpH_c01_fields)
 	vpRegister("c01_legacy", vpH_c01_legacy)
 	vpRegister("c01_config", vpH_c01_config)
+	vpRegister("c01_inplace", vpH_c01_inplace)
 }
 
 // The mandatory-field rule on its own: whatever the signed-field list looks
@@ -294,4 +296,44 @@ func vpH_c01_config() {
 	} else {
 		vpAssert(verr != nil, "a plugin config swapped for any other value (also between falsy scalars) is refused")
 	}
+}
+
+// The step that is verified is the step as it is now: content changed in
+// place after signing - deep inside a plugin config or a matrix extra, in
+// objects that were already marshalled once while signing - is seen.
+func vpH_c01_inplace() {
+	ctx := context.Background()
+	v1, v2 := vpStr(1, "x-z"), vpStr(1, "x-z")
+	vpAssume(v1 != v2)
+	leaf := map[string]any{"a": v1}
+	list := []any{v1, "k"}
+	inner := ordered.NewMap[string, any](2)
+	inner.Set("leaf", leaf)
+	inner.Set("list", list)
+	outer := ordered.NewMap[string, any](1)
+	outer.Set("inner", inner)
+	adjExtra := ordered.NewMap[string, any](1)
+	adjExtra.Set("policy", map[string]any{"p": v1})
+	step := pipeline.CommandStep{
+		Command: "c",
+		Plugins: pipeline.Plugins{{Source: "p#v1", Config: outer}},
+		Matrix: &pipeline.Matrix{Setup: pipeline.MatrixSetup{"os": {"l"}}, Adjustments: pipeline.MatrixAdjustments{{With: pipeline.MatrixAdjustmentWith{"os": "w"}, RemainingFields: map[string]any{"soft_fail": adjExtra}}}},
+	}
+	s := vpSigSigner(1)
+	sig, err := Sign(ctx, s, &CommandStepWithInvariants{CommandStep: step, RepositoryURL: "r"})
+	vpAssume(err == nil && sig != nil)
+	vpAssert(Verify(ctx, sig, s, &CommandStepWithInvariants{CommandStep: step, RepositoryURL: "r"}) == nil, "the untouched step verifies")
+	switch vpInt(0, 3) {
+	case 0:
+		leaf["a"] = v2
+	case 1:
+		list[0] = v2
+	case 2:
+		adjExtra.Get("policy")
+		pol, _ := adjExtra.Get("policy")
+		pol.(map[string]any)["p"] = v2
+	default:
+		inner.Set("leaf", map[string]any{"a": v2})
+	}
+	vpAssert(Verify(ctx, sig, s, &CommandStepWithInvariants{CommandStep: step, RepositoryURL: "r"}) != nil, "content changed in place after signing (inside nested containers that were already marshalled once) is refused")
 }
